@@ -52,7 +52,7 @@ theorem adjsOf_cons_none (p : Plugin) (rest : List (Plugin × Option Response)) 
 theorem adjsOf_cons_some (p : Plugin) (r : Response) (rest : List (Plugin × Option Response)) :
     adjsOf ((p, some r) :: rest) =
       (match r.adjust with | some a => a :: adjsOf rest | none => adjsOf rest) := by
-  cases ha : r.adjust <;> simp [adjsOf, List.filterMap_cons, adjOf, ha]
+  cases ha : r.adjust <;> simp [adjsOf, adjOf, ha]
 
 /-- **The combined reply is a fold** of `replyStep` over the plugins' adjustments. -/
 theorem run_reply (rs : List (Plugin × Option Response)) :
